@@ -61,20 +61,33 @@ QUEUED_COUNT = {'quick': 160, 'thorough': 3000}
 SLOW_KNOBS = dict(KNOBS, handshake_skew=[0.0, 0.3, 1.0, 2.0, 3.0], actions=KNOBS['actions'] + ['restart', 'restart'])
 
 
+# and a family with requests that are never answered (the start_args XML-RPC is lost, also towards the requester itself):
+# the process is given up after the tick margin, then the sequence goes on, one start_sequence group at a time
+LOST_KNOBS = {'n_min': 1, 'n_max': 3,
+              'apps': {'n_apps': (1, 2), 'n_progs': (3, 5), 'seq_max': 4, 'allow_wait_exit': False, 'startsecs': (0, 3),
+                       'per_instance_diff': 0.0, 'managed_p': 1.0, 'autorestart': ('false',)},
+              'behaviours': ['normal'], 'lost_requests_p': [0.15, 0.3],
+              'actions': ['restart_application', 'start_application', 'restart_sequence', 'stop_application'],
+              'n_actions': [1, 2, 3], 'gaps': [20.0, 40.0], 'early_p': 0.0}
+LOST_COUNT = {'quick': 160, 'thorough': 3000}
+
+
 def plan(tier, seed):
     return [{'seed': seed * 1000003 + i} for i in range(COUNT[tier])] + \
         [{'seed': seed * 1000003 + 800000 + i, 'family': 'concurrent-restart-sequence'}
          for i in range(CONCURRENT_COUNT[tier])] + \
         [{'seed': seed * 1000003 + 700000 + i, 'family': 'application-behind-a-queued-process'}
          for i in range(QUEUED_COUNT[tier])] + \
-        [{'seed': seed * 1000003 + 900000 + i, 'family': 'slow-handshake'} for i in range(COUNT[tier] // 8)]
+        [{'seed': seed * 1000003 + 900000 + i, 'family': 'slow-handshake'} for i in range(COUNT[tier] // 8)] + \
+        [{'seed': seed * 1000003 + 600000 + i, 'family': 'unanswered-requests'} for i in range(LOST_COUNT[tier])]
 
 
 def run_case(case):
     tracker = Tracker()
     mon = StartSequenceMonitor(tracker)
     run = Run(case, {'concurrent-restart-sequence': CONCURRENT_KNOBS,
-                     'application-behind-a-queued-process': QUEUED_KNOBS, 'slow-handshake': SLOW_KNOBS}.get(case.get('family'), KNOBS),
+                     'application-behind-a-queued-process': QUEUED_KNOBS, 'slow-handshake': SLOW_KNOBS,
+                     'unanswered-requests': LOST_KNOBS}.get(case.get('family'), KNOBS),
               [tracker, mon])
     violations = run.execute()
     for action in run.actions:
